@@ -180,13 +180,15 @@ class TelegramQueue:
                 break
 
             # limit rate to knx bus - defaults to 20 per second
-            if self.xknx.rate_limit and not isinstance(
+            # read once: `xknx.rate_limit` may be changed while waiting for the limiter
+            rate_limit = self.xknx.rate_limit
+            if rate_limit and not isinstance(
                 telegram.destination_address, InternalGroupAddress
             ):
                 if self._rate_limiter is not None:
                     await self._rate_limiter
                 self._rate_limiter = asyncio.create_task(
-                    asyncio.sleep(1 / self.xknx.rate_limit)
+                    asyncio.sleep(1 / rate_limit)
                 )
 
             try:
